@@ -151,3 +151,33 @@ Theorem C07_oversized_parameter_set_refuted :
        check_C07 b ops (map class_of rs) (sink_of m) = true).
 Proof. exact finished_file_carries_stream_configuration_refuted. Qed.
 Print Assumptions C07_oversized_parameter_set_refuted.
+
+From Muxide Require Export Model.Api Spec.Checks Proofs.EndToEndProofs Proofs.SyncProofs Proofs.SyncAv1Vp9Proofs.
+(* END TO END for AV1 and VP9 (no side condition on the stream): the sample entry of every finished file
+   carries the configured dimensions and the configuration record of the first accepted keyframe: av1C with
+   the sequence-header OBU byte for byte and the profile / level / tier / bit-depth / monochrome /
+   subsampling / sample-position fields the parser extracted; vpcC with the extracted profile, bit depth,
+   colour and range fields *)
+Theorem C07_finished_file_carries_av1_configuration : forall b m0 ops m rs s,
+  build b [] = inl m0 -> run m0 ops = (m, rs) -> In (RStats s) rs ->
+  Forall op_payload_ok ops -> len (sink_of m) < 4294967296 ->
+  cfg_codec b = Av1 ->
+  (match cfg_audio b with Some a => at_channels a < 65536 | None => True end) ->
+  check_C07 b ops (map class_of rs) (sink_of m) = true.
+Proof. exact finished_file_carries_av1_configuration. Qed.
+Print Assumptions C07_finished_file_carries_av1_configuration.
+
+Theorem C07_finished_file_carries_vp9_configuration : forall b m0 ops m rs s,
+  build b [] = inl m0 -> run m0 ops = (m, rs) -> In (RStats s) rs ->
+  Forall op_payload_ok ops -> len (sink_of m) < 4294967296 ->
+  cfg_codec b = Vp9 ->
+  (match cfg_audio b with Some a => at_channels a < 65536 | None => True end) ->
+  check_C07 b ops (map class_of rs) (sink_of m) = true.
+Proof. exact finished_file_carries_vp9_configuration. Qed.
+Print Assumptions C07_finished_file_carries_vp9_configuration.
+
+(* the fields the AV1 parser returns always fit the bit fields of av1C *)
+Theorem C07_av1_parsed_fields_fit : forall d c, extract_av1_config d = Some c ->
+  av1_seq_profile c < 8 /\ av1_seq_level_idx c < 32 /\ av1_seq_tier c < 2 /\ av1_chroma_sample_position c < 4.
+Proof. exact extract_av1_config_fields_fit. Qed.
+Print Assumptions C07_av1_parsed_fields_fit.
